@@ -18,9 +18,12 @@ def case(rep, drv, rnd, i, tier):
     rep.count('textbook:' + tb[0])
     rep.count('stack-depth=%d' % (len(pairs) - 1))
     payload = {'pairs': sx([[a, b] for a, b in pairs]), 'watch': sx(watch), 'sched': list(sched)}
+    atoms = rnd.choice(['same', 'same', 'other', 'cleared'])
+    rep.count('atoms-from:' + atoms)
+    payload['atoms'] = atoms
     try:
-        real, late = unif.real_unify(pairs, watch, sched)
-        real_sw, _ = unif.real_unify(pairs, watch, sched, swap_last=True)
+        real, late = unif.real_unify(pairs, watch, sched, atoms=atoms)
+        real_sw, _ = unif.real_unify(pairs, watch, sched, swap_last=True, atoms=atoms)
     except RecursionError:
         real = None
     try:
